@@ -139,6 +139,63 @@ def sched_worker(item):
     )
 
 
+# -- wall-clock schedules (in-process, virtual clock) -----------------------------------
+
+
+def clock_worker(item):
+    """item = (kind, seed, speed): the same time-triggered-checkpoint configuration under a virtual
+    clock that advances `speed` seconds per evaluated point.  The wall clock decides when periodic
+    checkpoints are written (never for speed 0, after every few points for speed 1000); it must not
+    decide anything else."""
+    from mc import vclock
+    from mc.tinymodels import make
+    import hashlib
+    import shutil
+
+    kind, seed, speed = item
+    clk = vclock.VClock()
+    base = {"nlive": 10, "poolsize": 10, "maximum_uninformed": 10} if kind == "std" else {"max_iteration": 2}
+    cfg = {"kind": kind, "model": "G2", "seed": seed, "kwargs": {**base, "checkpoint_on_iteration": False, "checkpoint_interval": 60}, "resume": "none"}
+    orig_make = runs.make
+
+    def make_ticking(name, **kw):
+        m = orig_make(name, **kw)
+        inner = m.log_likelihood
+
+        def ll(x, _inner=inner):
+            clk.tick(speed * np.atleast_1d(x).size)
+            return _inner(x)
+
+        m.log_likelihood = ll
+        return m
+
+    import nessai.samplers.base as sbase
+
+    n_ckpt = [0]
+    o_dump = sbase.safe_file_dump
+
+    def dump(*a, **k):
+        n_ckpt[0] += 1
+        return o_dump(*a, **k)
+
+    runs.make = make_ticking
+    sbase.safe_file_dump = dump
+    try:
+        with clk.installed():
+            runner = runs.run_standard_case if kind == "std" else runs.run_ins_case
+            res = runner(cfg, want=(), keep_output=True)
+    finally:
+        runs.make = orig_make
+        sbase.safe_file_dump = o_dump
+    if res.get("output"):
+        shutil.rmtree(res["output"], ignore_errors=True)
+    fs = res.get("fs")
+    if fs is None:
+        return dict(error=str(res["errs"][:1]), checkpoints=n_ckpt[0])
+    samples = np.asarray(fs.nested_samples)
+    return dict(digest=(hashlib.sha1(samples.tobytes()).hexdigest(), float(fs.logZ).hex(), int(res["model"].likelihood_evaluations)), checkpoints=n_ckpt[0])
+
+
 def run(ctx):
     cfgs = lattice(ctx.seed, ctx.quick)
     for i, c in enumerate(cfgs):
@@ -227,9 +284,30 @@ def run(ctx):
         elif res["digest"] != base[kind]["digest"]:
             ctx.violation(f"result-depends-on-pool-completion-order:{kind}", f"deviations {devs} (map call index, order id) change the result: {res['digest']} vs {base[kind]['digest']}", {})
     ctx.set("distinct_nontrivial", len(cfgs) + len(sched_items))
+    # wall-clock schedules: same configuration, clock speeds from "frozen" to "a checkpoint every few points"
+    speeds = (0, 1, 37, 1000) if ctx.quick else (0, 1, 7, 37, 211, 1000, 10**6)
+    by_kind = {}
+    for (kind, seed, speed), res in ctx.pmap(clock_worker, [(k, ctx.seed, sp) for k in ("std", "ins") for sp in speeds]):
+        ctx.count("evaluations")
+        ctx.count("clock_schedules")
+        if "error" in res:
+            ctx.violation(f"clock-schedule-run-failed:{kind}", f"{res['error']} (speed {speed})", {"clock": [kind, seed, speed]})
+            continue
+        by_kind.setdefault(kind, []).append((speed, res))
+    for kind, rs in by_kind.items():
+        rs.sort(key=lambda t: t[0])
+        ref = rs[0][1]["digest"]
+        ctx.sample({"clock_schedules": kind, "checkpoints_written_per_speed": {str(sp): r["checkpoints"] for sp, r in rs}}, limit=4)
+        if len({r["checkpoints"] for _, r in rs}) < 2:
+            raise core.HarnessError(f"clock speeds did not change the number of checkpoints for {kind}: vacuous")
+        for sp, r in rs[1:]:
+            if r["digest"] != ref:
+                which = [n for n, a, b in zip(("nested samples", "logZ", "evaluation count"), r["digest"], ref) if a != b]
+                ctx.violation(f"result-depends-on-the-wall-clock:{kind}", f"{which} differ between a frozen clock ({rs[0][1]['checkpoints']} checkpoints) and {sp} s per evaluated point ({r['checkpoints']} time-triggered checkpoints)", {"clock": [kind, ctx.seed, sp]})
+                break
     ctx.set("seed_classes", {str(k): len(v) for k, v in classes.items()})
     ctx.set("pool_map_calls", {k: v["calls"] for k, v in base.items()})
-    ctx.set("rule", "lattice {std, INS} x 2 seeds (+ seed 0) x parallelisation settings (n_pool 1..4, user-supplied fork pool, chunk sizes 1/7/larger than any batch, parallel prior) run in separate interpreter processes (two PYTHONHASHSEED values) and twice inside one process; controllable in-process pool with every completion order (<= 5 per call) at each map call (deviation 1) and at pairs of calls (deviation 2, thorough). Distinct/non-trivial: distinct configurations + distinct schedules")
+    ctx.set("rule", "lattice {std, INS} x 2 seeds (+ seed 0) x parallelisation settings (n_pool 1..4, user-supplied fork pool, chunk sizes 1/7/larger than any batch, parallel prior) run in separate interpreter processes (two PYTHONHASHSEED values) and twice inside one process; controllable in-process pool with every completion order (<= 5 per call) at each map call (deviation 1) and at pairs of calls (deviation 2, thorough); virtual-clock schedules: the time-triggered-checkpoint configuration of each sampler under clock speeds 0 .. 1e6 s per evaluated point (the wall clock may only decide when checkpoints are written). Distinct/non-trivial: distinct configurations + distinct schedules")
     ctx.set("exhaustive", True)
     ctx.sample({"config": cfgs[3], "digest": "sha1(nested samples), logZ.hex(), sha1(log posterior weights), evaluation count"})
     ctx.assume(
@@ -239,4 +317,10 @@ def run(ctx):
 
 
 def replay(ctx, data):
+    if data.get("clock"):
+        kind, seed, speed = data["clock"]
+        a, b = clock_worker((kind, seed, 0)), clock_worker((kind, seed, speed))
+        if "error" in a or "error" in b:
+            return [f"run failed: {a.get('error') or b.get('error')}"]
+        return [] if a["digest"] == b["digest"] else [f"results differ between a frozen clock and {speed} s per evaluated point: {a['digest']} vs {b['digest']}"]
     return [f"re-run ./check C14; stored config: {data.get('cfg')}"]
